@@ -435,11 +435,6 @@ def run(ctx: Ctx):
     r_alpha_reference(ctx, model)
     r_plot_limits(ctx, model)
     r_window(ctx, model)
-    # the wrappers (area_BET, area_langmuir, t_plot, alpha_s, dr_plot, da_plot) analyse the branch the caller names: interpreted with a
-    # recording stub isotherm up to the *_raw routine (machinery shared with C15 R-pin)
-    ctx.rule("L-branch: every read of the sample isotherm made by a wrapper called with branch='ads' / 'des' asks for that branch")
-    from .C15 import r_pin_interpreted
-    r_pin_interpreted(ctx, model, prop="C14", rule="L-branch", check="branch")
     # module-level state: only the declared write-once caches, guarded and keyed by the full argument (shared with C04 R-module)
     from ..effects import Effects
     from .C04 import r_module
@@ -452,6 +447,11 @@ def run(ctx: Ctx):
     ctx.rule("L-fresh: no caching decorator on any function of pygaps.characterisation.")
     no_memoisation(ctx, load(ctx.root), "C14", "L-fresh", ('pygaps.characterisation.',),
                    "a cached constant or fit survives a change of the isotherm")
+    # the wrappers (area_BET, area_langmuir, t_plot, alpha_s, dr_plot, da_plot) analyse the branch the caller names: interpreted with a
+    # recording stub isotherm up to the *_raw routine (machinery shared with C15 R-pin)
+    ctx.rule("L-branch: every read of the sample isotherm made by a wrapper called with branch='ads' / 'des' asks for that branch")
+    from .C15 import r_pin_interpreted
+    r_pin_interpreted(ctx, model, prop="C14", rule="L-branch", check="branch")
 
 
 META = {
